@@ -239,8 +239,18 @@ func InstrMultiset(src string, strict bool) (string, []string) {
 	dump := goja.VerifProgramDump(prg)
 	counts := map[string]int{}
 	for _, line := range strings.Split(dump, "\n") {
+		line = strings.TrimLeft(line, " >")
 		i := strings.Index(line, ": ")
-		if i < 0 {
+		if i <= 0 || i > 7 {
+			continue
+		}
+		isNum := true
+		for _, ch := range line[:i] {
+			if ch < '0' || ch > '9' {
+				isNum = false
+			}
+		}
+		if !isNum {
 			continue
 		}
 		rest := line[i+2:]
